@@ -1125,6 +1125,12 @@ impl<'a> GeneratorState<'a> {
     }
 
     fn generate_csleep_statement(&mut self, cycles: i32, pos: usize) -> Result<(), Error> {
+        if matches!(cycles, 3 | 5 | 9 | 10) && !self.compiler_state.variables.contains_key("DUMMY") {
+            return Err(self.compiler_state.syntax_error(
+                "csleep needs a variable named DUMMY for this number of cycles",
+                pos,
+            ));
+        }
         match cycles {
             2 => self.sasm_protected(NOP)?,
             3 => self.asm(
